@@ -27,3 +27,104 @@ package v2
 //@   property C29
 //@   pureeffect
 //@   defines (err == nil || errIs(err, ErrNotMatched)) ==> extendedACLPassed()
+
+// ---- C30: a session or bearer token is honoured only if it passed every check, and the
+// checks that depend on the request (container / object / verb relation, current time) are
+// evaluated on every call - outside the closures whose results are cached by token hash.
+// Each fact is established only by the named SDK call returning the favourable answer.
+
+//@ ghost pred tokNotExpired() bool
+//@ ghost pred tokValidNow() bool
+//@ ghost pred tokAuthenticated() bool
+//@ ghost pred tokContainerOK() bool
+//@ ghost pred tokObjectOK() bool
+//@ ghost pred tokVerbOK() bool
+//@ ghost pred tokIsDelete() bool
+//@ ghost pred requestRelationChecked() bool
+//@ ghost pred sessionRelationOK() bool
+//@ ghost pred sessionVerbOK() bool
+
+//@ callrule c30_expired_fact in (Service).decodeAndVerifySessionTokenCommon
+//@   property C30
+//@   callee *).ExpiredAt
+//@   defines !result ==> tokNotExpired()
+//@ callrule c30_validat_fact in (Service).decodeAndVerifySessionTokenCommon, (Service).decodeAndVerifyBearerTokenCommon, (Service).VerifySessionTokenMessage
+//@   property C30
+//@   callee *).ValidAt
+//@   defines result ==> tokValidNow()
+//@ callrule c30_auth_fact in (Service).decodeAndVerifySessionTokenCommon, (Service).decodeAndVerifyBearerTokenCommon, (Service).decodeAndVerifySessionTokenV2Common
+//@   property C30
+//@   callee crypto.AuthenticateToken, crypto.AuthenticateTokenV2
+//@   defines err == nil ==> tokAuthenticated()
+
+//@ func (Service).decodeAndVerifySessionTokenCommon
+//@   property C30
+//@   ensures [unexpired_valid_and_authentic] err == nil ==> tokNotExpired() && tokValidNow() && tokAuthenticated()
+//@ func (Service).decodeAndVerifySessionTokenV2Common
+//@   property C30
+//@   ensures [authentic] err == nil ==> tokAuthenticated()
+//@ func (Service).decodeAndVerifyBearerTokenCommon
+//@   property C30
+//@   ensures [within_lifetime_and_authentic] err == nil ==> tokValidNow() && tokAuthenticated()
+
+//@ callrule c30_relation_facts in assertSessionRelation
+//@   property C30
+//@   callee *).AssertContainer
+//@   defines result ==> tokContainerOK()
+//@ callrule c30_object_fact in assertSessionRelation
+//@   property C30
+//@   callee *).AssertObject
+//@   defines result ==> tokObjectOK()
+//@ callrule c30_delete_fact in assertSessionRelation
+//@   property C30
+//@   callee *).AssertVerb
+//@   defines result ==> tokIsDelete()
+//@ func assertSessionRelation
+//@   property C30
+//@   ensures [bound_to_container_and_object_unless_delete] err == nil ==> tokContainerOK() && (tokIsDelete() || obj == zeroOID() || tokObjectOK())
+//@   defines err == nil ==> sessionRelationOK()
+//@ ghost pred zeroOID() oid.ID
+//@ callrule c30_zero_oid_fact in assertSessionRelation
+//@   property C30
+//@   callee (id.ID).IsZero
+//@   defines result ==> self == zeroOID()
+
+//@ callrule c30_verb_fact in assertVerb
+//@   property C30
+//@   callee *).AssertVerb
+//@   defines result ==> tokVerbOK()
+//@ func assertVerb
+//@   property C30
+//@   ensures [verb_asserted_by_token] result ==> tokVerbOK()
+//@   defines result ==> sessionVerbOK()
+
+//@ func (Service).verifySessionTokenAgainstRequest
+//@   property C30
+//@   ensures [relation_and_verb] err == nil ==> sessionRelationOK() && sessionVerbOK()
+//@   defines err == nil ==> requestRelationChecked()
+
+//@ func (Service).VerifySessionV1TokenMessage
+//@   property C30
+//@   ensures [request_relation_checked_on_every_call] err == nil ==> requestRelationChecked()
+
+//@ ghost pred v2NotExpiredNow() bool
+//@ callrule c30_v2_before_fact in (Service).VerifySessionTokenMessage
+//@   property C30
+//@   callee (time.Time).Before
+//@   defines !result ==> v2NotExpiredNow()
+//@ callrule c30_v2_verb_fact in (Service).VerifySessionTokenMessage
+//@   property C30
+//@   callee *).AssertVerb
+//@   defines result ==> tokVerbOK()
+//@ func (Service).VerifySessionTokenMessage
+//@   property C30
+//@   ensures [time_and_verb_checked_on_every_call] err == nil ==> v2NotExpiredNow() && tokValidNow() && tokVerbOK()
+
+//@ ghost pred bearerUserOK() bool
+//@ callrule c30_bearer_user_fact in (Service).verifyBearerTokenAgainstRequest
+//@   property C30
+//@   callee *).AssertUser
+//@   defines result ==> bearerUserOK()
+//@ func (Service).verifyBearerTokenAgainstRequest
+//@   property C30
+//@   ensures [issued_for_this_sender] err == nil ==> bearerUserOK()
